@@ -4,7 +4,9 @@ inventory of the current source against the committed baseline. Monitor O06: byt
 of the YAML across fresh processes (fresh RandomState), repeated in-process compilations
 and compilations preceded by other programs."""
 import json
-from . import core, progs, inventory
+import os
+import time
+from . import core, progs, inventory, lspws
 
 
 def yaml_of(r):
@@ -32,7 +34,13 @@ def check(ctx):
             'let s = str `enum: [x, y, z]`;\nres /e on get -> <{ \'k s `enum: [y, w, x]` }>;\n',
             "let tree t = rec x { 'v t, 'kids [x] };\nres /ints on get -> <tree int>;\nres /strs on get -> <tree str>;\n",
             'let @a = { \'p num } `examples: { one: "1.json", two: "2.json", three: "3.json" }`;\nres /r on get -> <@a>;\n',
+            # formats whose natural sample values come from the clock, the host or a random source
+            'let @event = { \'created! str `format: date-time`, \'day str `format: date`, \'at str `format: time`, \'id str `format: uuid`,\n'
+            '  \'host str `format: hostname`, \'ip str `format: ipv4`, \'secret str `format: password`, \'n int `format: int64` };\n'
+            'res /events on get -> <status=200, [@event]>;\n',
+            'res /e/{ \'id str `format: uuid` }?{ \'since str `format: date-time` } on get -> <headers={ \'Date str `format: date-time` }, uri>;\n',
         ]
+        ncorpus = len(corpus)
         for s in corpus:
             ps.insert(0, {"mods": {"file:///w/main.oal": s}, "main": "file:///w/main.oal", "features": ["corpus"], "ast": None})
     progs.feature_stats(ctx, ps)
@@ -40,6 +48,7 @@ def check(ctx):
         # C06_evaluation_has_one_result is a theorem about Model/Eval.v: the evaluator tie (and its stratification hypothesis)
         from . import evaltie
         evaltie.run(ctx, ps[: (1500 if ctx.thorough else 100)])
+    t_a = time.time()
     # run A: each program three times in process, programs interleaved in one process per shard
     a = progs.compile_many([dict(p, repeat=3) for p in ps])
     # run B..: fresh processes, different shard composition (reversed order => different history)
@@ -52,8 +61,16 @@ def check(ctx):
             back[i] = res[pos]
         runs.append(back)
     # a handful of programs alone in brand-new processes
-    solo_idx = list(range(0, len(ps), max(1, len(ps) // (180 if ctx.thorough else 24))))
-    solos = {i: progs.compile_many([ps[i]])[0] for i in solo_idx}
+    # ... later (more than a second after run A), from another directory and with another environment
+    solo_idx = sorted(set(range(0, len(ps), max(1, len(ps) // (180 if ctx.thorough else 24)))) | set(range(min(len(ps), 0 if ctx.replay else ncorpus))))
+    time.sleep(max(0.0, 1.3 - (time.time() - t_a)))
+    core.PROC_CWD = lspws.fresh_dir("c06_cwd")
+    core.PROC_ENV = dict(os.environ, TZ="Pacific/Kiritimati", LANG="tr_TR.UTF-8", LC_ALL="C", HOME="/nonexistent", USER="nobody",
+                         HOSTNAME="elsewhere", RUST_BACKTRACE="0", OAL_SEED=str(ctx.rng.random()))
+    try:
+        solos = {i: progs.compile_many([ps[i]])[0] for i in solo_idx}
+    finally:
+        core.PROC_CWD = core.PROC_ENV = None
     seen = set()
     for i, p in enumerate(ps):
         ctx.cov["evaluations"] += len(runs) + 2 + (1 if i in solos else 0)
@@ -84,7 +101,7 @@ def check(ctx):
     ctx.cov["distinct_nontrivial"] = ctx.cov["distribution"].get("nontrivial", 0)
     ctx.cov["inventory"] = inventory.unordered_inventory()
     ctx.cov["rule"] = ("generated programs + corpus (examples maps, composed tags/enum sequences, rec inside applied functions); each compiled 3x in one process, "
-                       "then in 2-3 further processes with a different compilation history, a sample alone in fresh processes; YAML compared byte for byte. "
+                       "then in 2-3 further processes with a different compilation history, a sample (and the whole corpus, with clock/host/random-flavoured formats) alone in fresh processes started more than a second later from another working directory with another environment (TZ, locale, HOME, USER); YAML compared byte for byte. "
                        "distinct_nontrivial = distinct accepted programs whose document contains implicit component names, examples or tags")
     ctx.assumptions = ["process-level entropy (hash seeds, address space) is sampled by fresh processes, not enumerated",
                        "the inventory lists every HashMap/HashSet mention and every hidden-state primitive in the compile path; all present ones are lookup-only"]
